@@ -363,6 +363,40 @@ theorem minCltv_spec (l : List Part) (m : Nat) :
   unfold minCltv
   exact List.min?_eq_some_iff
 
+/-- The TRANSLATED `claim_deadline` expression of handle_claimable_htlc (`MppGen.eventClaimDeadline`, regenerated from
+    the Rust text on every run) selects the MINIMUM `cltv_expiry` of the set it is given (the new part's own expiry
+    for an empty set) and applies the generated `claimDeadline` arithmetic to it.  This is the lemma that stops
+    checking when the Rust picks another element (first / last / max ..). -/
+theorem eventClaimDeadline_eq (l : List Part) (c : Nat) :
+    MppGen.eventClaimDeadline (l.map Part.g) c = claimDeadline ((minCltv l).getD c) := by
+  have h : MppGen.eventMinCltv (l.map Part.g) = minCltv l := by
+    simp only [MppGen.eventMinCltv, minCltv, List.map_map, Function.comp_def, Part.g]
+  unfold MppGen.eventClaimDeadline
+  rw [h]
+  cases minCltv l <;> simp [claimDeadline]
+
+/-- The TRANSLATED gates of handle_claimable_htlc in front of the amount decisions (purpose comparison, then
+    `RecipientOnionFields::check_merge`: payment_secret, payment_metadata, total_mpp_amount_msat, the even custom TLVs)
+    refuse a part exactly when its tag, its `total_msat` or its even-TLV flag differs from the entry's. Stops checking
+    when one of the comparisons is flipped. -/
+theorem mergeRefuses_iff (total tag : Nat) (ev : Bool) (p : Part) :
+    (MppGen.purposeMismatch p.tag tag || MppGen.checkMergeErr (onionOf total tag ev) (onionOf p.total p.tag p.evenTlv)) = true ↔
+      (p.tag ≠ tag ∨ p.total ≠ total ∨ p.evenTlv ≠ ev) := by
+  simp only [MppGen.purposeMismatch, MppGen.checkMergeErr, onionOf]
+  by_cases h1 : p.tag = tag
+  · by_cases h2 : p.total = total
+    · subst h1 h2
+      cases ev <;> cases hp : p.evenTlv <;> simp
+    · have h2' : total ≠ p.total := fun h => h2 h.symm
+      simp [h1, h2, h2']
+  · have h1' : tag ≠ p.tag := fun h => h1 h.symm
+    simp [h1, h1']
+
+/-- the TRANSLATED unknown-even-TLV refusal of begin_claiming_payment on the entry's onion fields -/
+theorem claimRefuses_eq (known : Bool) (total tag : Nat) (ev : Bool) :
+    MppGen.claimRefusesUnknownEven known (onionOf total tag ev).custom_tlvs = (!known && ev) := by
+  cases ev <;> simp [MppGen.claimRefusesUnknownEven, onionOf]
+
 /-- invariant of every reachable accumulator -/
 structure Inv (s : Mpp) : Prop where
   /-- every held part arrived with the payment's onion fields -/
@@ -392,16 +426,16 @@ theorem stepPart_normal (s : Mpp) (p : Part) :
           ({ s with parts := sortParts ((s.parts ++ [p]).map fun q => { q with totalRecv := some (sumValue (s.parts ++ [p])) }),
                     total := total, tag := tag, evenTlv := ev },
            [.claimable (sumValue (s.parts ++ [p])) (sumSkim (s.parts ++ [p]))
-              (claimDeadline ((minCltv (sortParts ((s.parts ++ [p]).map fun q =>
-                { q with totalRecv := some (sumValue (s.parts ++ [p])) }))).getD p.cltv))])
+              (MppGen.eventClaimDeadline ((sortParts ((s.parts ++ [p]).map fun q =>
+                { q with totalRecv := some (sumValue (s.parts ++ [p])) })).map Part.g) p.cltv)])
         else ({ s with parts := s.parts ++ [p], total := total, tag := tag, evenTlv := ev }, []) := by
   cases hs : s.parts with
   | nil =>
     refine ⟨p.total, p.tag, p.evenTlv, fun _ => ⟨rfl, rfl, rfl⟩, fun h => absurd rfl h, ?_⟩
-    simp only [stepPart, hs, List.isEmpty_nil, ↓reduceIte]
+    simp only [stepPart, hs, List.isEmpty_nil, ↓reduceIte, MppGen.pendingClaimRefuses, mergeRefuses_iff]
   | cons q qs =>
     refine ⟨s.total, s.tag, s.evenTlv, fun h => absurd h (List.cons_ne_nil _ _), fun _ => ⟨rfl, rfl, rfl⟩, ?_⟩
-    simp only [stepPart, hs, List.isEmpty_cons, Bool.false_eq_true, ↓reduceIte]
+    simp only [stepPart, hs, List.isEmpty_cons, Bool.false_eq_true, ↓reduceIte, MppGen.pendingClaimRefuses, mergeRefuses_iff]
 
 theorem Inv.stepPart {s : Mpp} (h : Inv s) (p : Part) (hp : p.totalRecv = none) : Inv (stepPart s p).1 := by
   obtain ⟨total, tag, ev, hfirst, hnot, heq⟩ := stepPart_normal s p
@@ -542,7 +576,7 @@ theorem stepPart_claimable (s : Mpp) (p : Part) (a k d : Nat) (h : Out.claimable
       total ≤ p.intended + sumIntended s.parts ∧
       stepPart s p = ({ s with parts := completedParts s p, total := total, tag := tag, evenTlv := ev },
         [.claimable a k d]) ∧
-      a = sumValue (s.parts ++ [p]) ∧ k = sumSkim (s.parts ++ [p]) ∧ d = claimDeadline ((minCltv (completedParts s p)).getD p.cltv) := by
+      a = sumValue (s.parts ++ [p]) ∧ k = sumSkim (s.parts ++ [p]) ∧ d = MppGen.eventClaimDeadline ((completedParts s p).map Part.g) p.cltv := by
   obtain ⟨total, tag, ev, _, hnot, heq⟩ := stepPart_normal s p
   rw [heq] at h ⊢
   have hacc := accIntended_spec s.parts p.intended
@@ -637,10 +671,10 @@ theorem stepClaim_outs (s : Mpp) (known : Bool) :
       claimLoop s.parts none 0 = (some amt, amt, true) ∧ (stepClaim s known).1.claiming = true ∧
       s.parts ≠ [] ∧ (known = true ∨ s.evenTlv = false)) := by
   unfold stepClaim
+  simp only [claimRefuses_eq]
   split
   · left; rfl
   · rename_i hne
-    simp only
     split
     · right; right; left; rfl
     · rename_i htlv
@@ -872,10 +906,10 @@ theorem Ready.claim {s : Mpp} {a d : Nat} (h : Ready s a d) (known : Bool) :
   · intro hk
     unfold stepClaim
     have : (!known && s.evenTlv) = false := by rcases hk with rfl | hk <;> simp [*]
-    simp only [hne, Bool.false_eq_true, ↓reduceIte, this, hloop, ne_eq, not_true_eq_false]
+    simp only [claimRefuses_eq, hne, Bool.false_eq_true, ↓reduceIte, this, hloop, ne_eq, not_true_eq_false]
   · rintro ⟨rfl, hk⟩
     unfold stepClaim
-    simp only [hne, Bool.false_eq_true, ↓reduceIte, Bool.not_false, hk, Bool.and_self]
+    simp only [claimRefuses_eq, hne, Bool.false_eq_true, ↓reduceIte, Bool.not_false, hk, Bool.and_self]
 
 /-- the held parts that carry the mark of an announced set -/
 def marked (ps : List Part) : List Part := ps.filter (·.totalRecv.isSome)
